@@ -249,6 +249,13 @@ def h_repeat(ctx):
         ctx.check(bool(np.allclose(m, first)), "repeated-delivery-differs", {"sig": f"{src_kind}:{pu}->{cu}:pull{k}"})
         ctx.check(bool(np.allclose(np.sort(m.ravel()), np.sort((keep * (c1 - c0) + c0).ravel()))),
                   "delivery-not-the-converted-publication", {"sig": f"{src_kind}:{pu}->{cu}:pull{k}"})
+        if src_kind == "esri":
+            # ESRI arrays are indexed [row from the top, column]; the consumer grid [x, y] with y increasing
+            conv = keep * (c1 - c0) + c0
+            mm = m[0] if m.ndim == 3 else m
+            ok = all(abs(mm[x, y] - conv[conv.shape[0] - 1 - y, x]) <= 1e-9 * max(1.0, abs(conv[conv.shape[0] - 1 - y, x]))
+                     for x in range(mm.shape[0]) for y in range(mm.shape[1]))
+            ctx.check(bool(ok), "delivered-values-at-other-cells", {"sig": f"{src_kind}:{pu}->{cu}:pull{k}"})
         if src_kind == "square_rev":
             # value published for cell (y, x) of the [y, x]-indexed source arrives at [x, y]
             ctx.check(bool(np.allclose(m[0] if m.ndim == 3 else m, (keep * (c1 - c0) + c0).T)),
